@@ -1,7 +1,862 @@
-/- C15: model not built yet (stub so that the per-property driver links). -/
+/-
+C15 — Abaco data packets.  Transcription of `packets/packets.go`: `ReadPacket` (fixed header,
+magic, TLV loop with every tag, payload by format), `Bytes`, the constructors (`NewPacket`,
+`NewData`, `SetTimestamp`, `ResetTimestamp`, `ClearData`, `MakePretendPacket`) and every accessor.
+
+Bytes are `Nat` (< 256), byte strings `List Nat`.  Go panics are values (`Res.pan`), decode errors
+are the small enum `Err` (io.EOF / io.ErrUnexpectedEOF / anything else).  `int` is 64 bit: the one
+place where that matters (the channel product in `Frames`/`ChannelInfo`) wraps explicitly.
+The timestamp *rate* is a float and is not modelled: the two 16-bit words `Bytes()` derives from it
+(`num`, `den`) are carried as opaque values (theorems quantify over all of them).
+-/
 import DastardV.Proto
 namespace DastardV.C15
 
-def runLine (_ts : List String) : Verdict := .bad "C15: model not built yet"
+/-! ### Byte-level helpers -/
+
+def leNat : List Nat → Nat
+  | [] => 0
+  | b :: r => b + 256 * leNat r
+
+def beNat (bs : List Nat) : Nat := leNat bs.reverse
+
+def leBytes : Nat → Nat → List Nat
+  | 0, _ => []
+  | w + 1, n => n % 256 :: leBytes w (n / 256)
+
+def beBytes (w n : Nat) : List Nat := (leBytes w n).reverse
+
+def be16 (a b : Nat) : Nat := a * 256 + b
+def be32 (a b c d : Nat) : Nat := ((a * 256 + b) * 256 + c) * 256 + d
+
+/-- two's complement: the unsigned `bits`-bit pattern of `x` -/
+def twos (bits : Nat) (x : Int) : Nat := (x % (2 : Int) ^ bits).toNat
+
+/-- the signed value of an unsigned `bits`-bit pattern -/
+def toSigned (bits : Nat) (u : Nat) : Int :=
+  if u < 2 ^ (bits - 1) then (u : Int) else (u : Int) - (2 : Int) ^ bits
+
+/-- Go's `int64(x)` / 64-bit `int` wrap-around -/
+def wrap64 (x : Int) : Int :=
+  let m := x % 18446744073709551616
+  if m < 9223372036854775808 then m else m - 18446744073709551616
+
+/-- `n` words of `w` bytes each read from `bs` (little or big endian), as signed values -/
+def words (w : Nat) (big : Bool) : Nat → List Nat → List Int
+  | 0, _ => []
+  | n + 1, bs =>
+    toSigned (8 * w) (if big then beNat (bs.take w) else leNat (bs.take w)) :: words w big n (bs.drop w)
+
+/-- the bytes of a list of signed words -/
+def unwords (w : Nat) (big : Bool) (xs : List Int) : List Nat :=
+  xs.flatMap fun x => if big then beBytes w (twos (8 * w) x) else leBytes w (twos (8 * w) x)
+
+/-! ### Types -/
+
+inductive Err where
+  | eof | short | bad
+deriving DecidableEq, Repr
+
+inductive Pan where
+  | nilDeref | divZero | indexRange | explicit
+deriving DecidableEq, Repr
+
+/-- result of a call that may panic -/
+inductive Res (α : Type) where
+  | ok (a : α)
+  | pan (p : Pan)
+deriving DecidableEq, Repr
+
+def Res.bind {α β} : Res α → (α → Res β) → Res β
+  | .ok a, f => f a
+  | .pan p, _ => .pan p
+
+def Res.isOk {α} : Res α → Bool
+  | .ok _ => true
+  | .pan _ => false
+
+/-- component kinds of a payload format (`reflect.Kind` classes with their byte size) -/
+inductive Kind where
+  | i16 | i32 | i64 | o1 | o2 | o4 | o8
+deriving DecidableEq, Repr
+
+def Kind.size : Kind → Nat
+  | .i16 => 2 | .i32 => 4 | .i64 => 8 | .o1 => 1 | .o2 => 2 | .o4 => 4 | .o8 => 8
+
+structure Fmt where
+  endian : Nat          -- 0 = never set (nil ByteOrder), 1 = little, 2 = big
+  wordlen : Nat
+  kinds : List Kind
+  raw : List Nat        -- rawfmt
+deriving DecidableEq, Repr
+
+inductive Data where
+  | none
+  | i16 (xs : List Int)
+  | i32 (xs : List Int)
+  | i64 (xs : List Int)
+  | raw (bs : List Nat)
+deriving DecidableEq, Repr
+
+def Data.kind : Data → Nat
+  | .none => 0 | .i16 _ => 16 | .i32 _ => 32 | .i64 _ => 64 | .raw _ => 8
+
+def Data.len : Data → Nat
+  | .none => 0 | .i16 xs => xs.length | .i32 xs => xs.length | .i64 xs => xs.length | .raw bs => bs.length
+
+/-- the payload as a list of integers (raw bytes as themselves) -/
+def Data.vals : Data → List Int
+  | .none => [] | .i16 xs => xs | .i32 xs => xs | .i64 xs => xs | .raw bs => bs.map Int.ofNat
+
+def Data.typed : Data → Bool
+  | .i16 _ => true | .i32 _ => true | .i64 _ => true | _ => false
+
+/-- bytes per value -/
+def Data.wsize : Data → Nat
+  | .none => 0 | .i16 _ => 2 | .i32 _ => 4 | .i64 _ => 8 | .raw _ => 1
+
+structure TS where
+  t : Nat       -- counter
+  num : Nat     -- float-derived unit words (opaque)
+  den : Nat
+deriving DecidableEq, Repr
+
+structure Packet where
+  version : Nat
+  hl : Nat                -- headerLength (uint8)
+  pl : Nat                -- payloadLength (uint16)
+  src : Nat
+  seq : Nat
+  plen : Int              -- packetLength (int)
+  format : Option Fmt
+  shape : Option (List Int)
+  ts : Option TS
+  label : List Nat
+  offset : Nat
+  explicitOffset : Bool
+  data : Data
+deriving DecidableEq, Repr
+
+def magic : Nat := 0x810b00ff
+
+/-! ### parseTLV -/
+
+inductive TLV where
+  | off (o : Nat)
+  | shape (s : List Int)
+  | fmt (f : Fmt)
+  | ts (t : TS)
+  | label (l : List Nat)
+  | other
+deriving DecidableEq, Repr
+
+def fmtStep (f : Fmt) (c : Nat) : Option Fmt :=
+  let add (k : Kind) : Option Fmt :=
+    some { f with wordlen := f.wordlen + k.size, kinds := f.kinds ++ [k] }
+  if c = 0 ∨ c = 32 then some f
+  else if c = 33 ∨ c = 62 then some { f with endian := 2 }
+  else if c = 60 then some { f with endian := 1 }
+  else if c = 120 ∨ c = 98 ∨ c = 66 then add .o1
+  else if c = 104 then add .i16
+  else if c = 72 then add .o2
+  else if c = 105 ∨ c = 108 then add .i32
+  else if c = 73 ∨ c = 76 then add .o4
+  else if c = 113 then add .i64
+  else if c = 81 then add .o8
+  else none
+
+/-- the loop over the characters of the format string.  Every accepted character is ASCII, so a byte
+≥ 0x80 (whether or not it starts a valid UTF-8 sequence) reaches the `default:` error branch. -/
+def fmtLoop : Fmt → List Nat → Option Fmt
+  | f, [] => some f
+  | f, c :: r => match fmtStep f c with
+    | some f' => fmtLoop f' r
+    | none => none
+
+def parseFmt (body : List Nat) : Option Fmt :=
+  fmtLoop { endian := 0, wordlen := 0, kinds := [], raw := body } body
+
+/-- the 16-bit big-endian signed words of the shape TLV body -/
+def pairs16 : List Nat → List Int
+  | a :: b :: r => toSigned 16 (be16 a b) :: pairs16 r
+  | _ => []
+
+def parseShape (body : List Nat) : Option (List Int) :=
+  let s := (pairs16 body).filter (· > 0)
+  if s = [] then none else some s
+
+/-- one TLV: type `t`, byte size `size` (a positive multiple of 8, already checked), bytes 2..7 and the
+bytes from 8 up to `size`. -/
+def parseOne (t size b2 b3 b4 b5 b6 b7 : Nat) (extra : List Nat) : Except Err TLV :=
+  let body := b2 :: b3 :: b4 :: b5 :: b6 :: b7 :: extra
+  if t = 0x09 then
+    if be16 b2 b3 ≠ 0 then .error .bad else .ok .other
+  else if t = 0x11 then
+    .ok (.ts { t := (be16 b2 b3 * 4294967296 + be32 b4 b5 b6 b7) * 65536, num := 0, den := 0 })
+  else if t = 0x12 then
+    if size ≠ 8 then .error .bad else .ok .other
+  else if t = 0x13 then
+    if size < 16 then .error .bad else
+    let nbits := b2
+    let t := beNat (extra.take 8)
+    if nbits < 64 then .ok (.ts { t := t % 2 ^ nbits, num := be16 b4 b5, den := be16 b6 b7 })
+    else if nbits = 64 then .ok (.ts { t := t, num := be16 b4 b5, den := be16 b6 b7 })
+    else .error .bad
+  else if t = 0x21 then
+    match parseFmt body with
+    | some f => .ok (.fmt f)
+    | none => .error .bad
+  else if t = 0x22 then
+    match parseShape body with
+    | some s => .ok (.shape s)
+    | none => .error .bad
+  else if t = 0x23 then
+    if be16 b2 b3 ≠ 0 then .error .bad else .ok (.off (be32 b4 b5 b6 b7))
+  else if t = 0x29 then .ok (.label body)
+  else .ok .other
+
+/-- the TLV loop.  `fuel` only makes the recursion structural (every iteration consumes ≥ 8 bytes;
+`parseTLV` supplies enough, see `Props`). -/
+def parseTLVf : Nat → List Nat → Except Err (List TLV)
+  | _, [] => .ok []
+  | 0, _ :: _ => .error .bad
+  | fuel + 1, t :: l :: b2 :: b3 :: b4 :: b5 :: b6 :: b7 :: more =>
+    let size := 8 * l
+    if size > more.length + 8 then .error .bad
+    else if size = 0 then .error .bad
+    else
+      match parseOne t size b2 b3 b4 b5 b6 b7 (more.take (size - 8)) with
+      | .error e => .error e
+      | .ok x =>
+        match parseTLVf fuel (more.drop (size - 8)) with
+        | .error e => .error e
+        | .ok r => .ok (x :: r)
+  | _ + 1, _ => .error .bad       -- 1..7 bytes remain
+
+def parseTLV (data : List Nat) : Except Err (List TLV) := parseTLVf data.length data
+
+def applyTLV (p : Packet) : TLV → Packet
+  | .off o => { p with offset := o, explicitOffset := true }
+  | .shape s => { p with shape := some s }
+  | .fmt f => { p with format := some f }
+  | .ts t => { p with ts := some t }
+  | .label l => { p with label := l }
+  | .other => p
+
+/-! ### ReadPacket -/
+
+/-- `io.ReadFull` of `need` bytes from `rest` failed: the error and the bytes consumed by it -/
+def shortRead (rest : List Nat) : Err := if rest = [] then .eof else .short
+
+/-- the payload part of `ReadPacket`; `base` = bytes consumed so far -/
+def readPayload (p : Packet) (rest : List Nat) (base : Nat) : Except Err Packet × Nat :=
+  match p.format with
+  | none => (.ok p, base)
+  | some f =>
+    if p.pl = 0 then (.ok p, base) else
+    let typed (w : Nat) (mk : List Int → Data) : Except Err Packet × Nat :=
+      let n := p.pl / w
+      if rest.length < w * n then (.error (shortRead rest), base + rest.length)
+      else (.ok { p with data := mk (words w (f.endian == 2) n rest) }, base + w * n)
+    match f.kinds with
+    | [.i16] => typed 2 .i16
+    | [.i32] => typed 4 .i32
+    | [.i64] => typed 8 .i64
+    | [_] => (.error .bad, base)
+    | _ =>
+      if rest.length < p.pl then (.error (shortRead rest), base + rest.length)
+      else (.ok { p with data := .raw (rest.take p.pl) }, base + p.pl)
+
+/-- `ReadPacket` on the byte string `inp`: result and number of bytes consumed from the reader. -/
+def decodeC (inp : List Nat) : Except Err Packet × Nat :=
+  match inp with
+  | [] => (.error .eof, 0)
+  | v :: hl :: p0 :: p1 :: m0 :: m1 :: m2 :: m3 :: s0 :: s1 :: s2 :: s3 :: q0 :: q1 :: q2 :: q3 :: rest =>
+    if hl < 16 then (.error .bad, 16) else
+    if be32 m0 m1 m2 m3 ≠ magic then (.error .bad, 16) else
+    let nt := hl - 16
+    if rest.length < nt then (.error (shortRead rest), 16 + rest.length) else
+    match parseTLV (rest.take nt) with
+    | .error e => (.error e, hl)
+    | .ok tlvs =>
+      let p0 : Packet :=
+        { version := v, hl := hl, pl := be16 p0 p1, src := be32 s0 s1 s2 s3, seq := be32 q0 q1 q2 q3,
+          plen := (hl : Int) + be16 p0 p1, format := none, shape := none, ts := none, label := [],
+          offset := 0, explicitOffset := false, data := .none }
+      readPayload (tlvs.foldl applyTLV p0) (rest.drop nt) hl
+  | _ => (.error .short, inp.length)
+
+def decode (inp : List Nat) : Except Err Packet := (decodeC inp).1
+
+/-- header length and payload length declared by the first four bytes -/
+def declared : List Nat → Nat × Nat
+  | _ :: hl :: p0 :: p1 :: _ => (hl, be16 p0 p1)
+  | _ => (0, 0)
+
+/-! ### Accessors -/
+
+/-- the loop `nchan := 1; for s in Sizes { if s > 0 { nchan *= int(s) } }` -/
+def nchanOf (sizes : List Int) : Int :=
+  sizes.foldl (fun acc s => if s > 0 then wrap64 (acc * s) else acc) 1
+
+def frames (p : Packet) : Res Int :=
+  match p.shape with
+  | none => .ok 0
+  | some sz =>
+    match p.format with
+    | none => .pan .nilDeref
+    | some f =>
+      let d := wrap64 ((f.wordlen : Int) * nchanOf sz)
+      if d = 0 then .pan .divZero else .ok (Int.tdiv p.pl d)
+
+def channelInfo (p : Packet) : Res (Int × Int) :=
+  match p.shape with
+  | none => .pan .nilDeref
+  | some sz => .ok (nchanOf sz, p.offset)
+
+def length (p : Packet) : Int := p.plen
+
+def tsCounter (p : Packet) : Option Nat := p.ts.map (·.t)
+
+def extLabel : List Nat := [118, 97, 108, 117, 101, 44, 97, 99, 116, 105, 118, 101, 44, 116]  -- "value,active,t"
+
+def isExtTrig (p : Packet) : Bool := !p.explicitOffset && p.label == extLabel
+
+def readValue (p : Packet) (i : Int) : Res Int :=
+  (frames p).bind fun f =>
+    if i < 0 ∨ i ≥ f then .ok 0 else
+    let pick (xs : List Int) : Res Int := match xs[i.toNat]? with
+      | some v => .ok v
+      | none => .pan .indexRange
+    match p.data with
+    | .i16 xs => pick xs
+    | .i32 xs => pick xs
+    | .i64 xs => pick xs
+    | _ => .pan .explicit
+
+/-- `x[i] = d[i % nchan]` for `i` in range; `i % nchan` for `i ≥ 0` is `i mod |nchan|` -/
+def pickAll (xs : List Int) (k : Nat) : List Nat → Res (List Int)
+  | [] => .ok []
+  | i :: r => match xs[i % k]? with
+    | none => .pan .indexRange
+    | some v => (pickAll xs k r).bind fun vs => .ok (v :: vs)
+
+def pretendVals (xs : List Int) (nchan : Int) : Res (List Int) :=
+  if xs = [] then .ok [] else
+  if nchan = 0 then .pan .divZero else
+  pickAll xs nchan.natAbs (List.range xs.length)
+
+def makePretend (p : Packet) (seq : Nat) (nchan : Int) : Res Packet :=
+  let q := { p with seq := seq }
+  match p.data with
+  | .i16 xs => (pretendVals xs nchan).bind fun ys => .ok { q with data := .i16 ys }
+  | .i32 xs => (pretendVals xs nchan).bind fun ys => .ok { q with data := .i32 ys }
+  | .i64 xs => (pretendVals xs nchan).bind fun ys => .ok { q with data := .i64 ys }
+  | _ => .ok q
+
+def clearData (p : Packet) : Packet :=
+  let hl := if p.ts.isSome then 40 else 24
+  { p with hl := hl, pl := 0, plen := hl, format := none, shape := none, data := .none }
+
+/-! ### Constructors -/
+
+def newPacket (version src seq : Nat) (chanOffset : Int) : Packet :=
+  { version := version, hl := 24, pl := 0, src := src, seq := seq, plen := 0,
+    format := none, shape := none, ts := none, label := [],
+    offset := (chanOffset % 4294967296).toNat, explicitOffset := false, data := .none }
+
+def setTimestamp (p : Packet) (ts : TS) : Packet :=
+  if p.ts.isNone then { p with hl := (p.hl + 16) % 256, plen := p.plen + 16, ts := some ts }
+  else { p with ts := some ts }
+
+def resetTimestamp (p : Packet) : Packet :=
+  if p.ts.isSome then { p with hl := (p.hl + 240) % 256, plen := p.plen - 16, ts := none }
+  else p
+
+def maxPacketLength : Nat := 8192
+
+inductive NDErr where
+  | tooLong
+  | pan (p : Pan)
+deriving DecidableEq, Repr
+
+def fmtOf (d : Data) : Fmt :=
+  match d with
+  | .i32 _ => { endian := 1, wordlen := 4, kinds := [.i32], raw := [60, 105] }   -- "<i"
+  | .i64 _ => { endian := 1, wordlen := 8, kinds := [.i64], raw := [60, 113] }   -- "<q"
+  | _ => { endian := 1, wordlen := 2, kinds := [.i16], raw := [60, 104] }        -- "<h"
+
+/-- `NewData(data, dims)` for typed data (the harness never passes another type). -/
+def newData (p : Packet) (d : Data) (dims : List Int) : Except NDErr Packet :=
+  let ndim := dims.length
+  let hl0 := if p.ts.isSome then 40 else 24
+  let f := fmtOf d
+  let pl := (f.wordlen * d.len) % 65536                        -- uint16(...)
+  -- Sizes = make([]int16, 1); Sizes[i] = dims[i] for i < ndim
+  if ndim ≥ 2 then .error (.pan .indexRange) else
+  let sizes : List Int := match dims with
+    | [] => [0]
+    | x :: _ => [x]
+  let hl := (hl0 + 8 + (8 * ((1 + ndim / 4) % 256)) % 256) % 256
+  let plen : Nat := hl + pl
+  if plen > maxPacketLength then .error .tooLong else
+  .ok { p with hl := hl, pl := pl, plen := plen, format := some f, shape := some sizes, data := d,
+               seq := (p.seq + 1) % 4294967296 }
+
+/-! ### Bytes -/
+
+def padTo6 (l : List Nat) : List Nat := (l ++ [0, 0, 0, 0, 0, 0]).take 6
+
+def encShape (sizes : List Int) : List Nat :=
+  [0x22, (1 + sizes.length / 4) % 256] ++ sizes.flatMap (fun s => beBytes 2 (twos 16 s)) ++
+    List.replicate (2 * (3 - sizes.length % 4)) 0
+
+def encPayload (f : Fmt) : Data → Res (List Nat)
+  | .none => .ok []
+  | .raw bs => .ok bs
+  | .i16 xs => if f.endian == 2 then .ok (unwords 2 true xs) else .ok (unwords 2 false xs)
+  | .i32 xs => if f.endian == 2 then .ok (unwords 4 true xs)
+               else if f.endian == 1 then .ok (unwords 4 false xs) else .pan .nilDeref
+  | .i64 xs => if f.endian == 2 then .ok (unwords 8 true xs)
+               else if f.endian == 1 then .ok (unwords 8 false xs) else .pan .nilDeref
+
+/-- `Bytes()` -/
+def encode (p : Packet) : Res (List Nat) :=
+  let hdr := [p.version, p.hl] ++ beBytes 2 p.pl ++ beBytes 4 magic ++ beBytes 4 p.src ++ beBytes 4 p.seq
+  let off := [0x23, 1, 0, 0] ++ beBytes 4 p.offset
+  let ts := match p.ts with
+    | none => []
+    | some t => [0x13, 2, 64, 0xf5] ++ beBytes 2 t.num ++ beBytes 2 t.den ++ beBytes 8 t.t
+  match p.data, p.shape, p.format with
+  | .none, _, _ => .ok (hdr ++ off ++ ts)
+  | _, none, _ => .ok (hdr ++ off ++ ts)
+  | _, _, none => .ok (hdr ++ off ++ ts)
+  | d, some sz, some f =>
+    (encPayload f d).bind fun pay =>
+      .ok (hdr ++ off ++ ts ++ ([0x21, 1] ++ padTo6 f.raw) ++ encShape sz ++ pay)
+
+/-! ### Observation of a packet through its accessors (what the harness records) -/
+
+structure PObs where
+  seq : Nat
+  len : Int
+  fr : Res Int
+  data : Data
+deriving DecidableEq, Repr
+
+structure CObs where
+  len : Int
+  fr : Res Int
+  ci : Res (Int × Int)
+  dkind : Nat
+  dlen : Nat
+deriving DecidableEq, Repr
+
+structure Obs where
+  consumed : Nat
+  v : Nat
+  src : Nat
+  seq : Nat
+  len : Int
+  sh : Option (List Int)
+  ts : Option Nat
+  ext : Bool
+  ci : Res (Int × Int)
+  fr : Res Int
+  data : Data
+  rd : List (Res Int)
+  pp : Res PObs
+  pa : Option (Res PObs)
+  cl : CObs
+deriving DecidableEq, Repr
+
+def pretendObs (p : Packet) (seq : Nat) (nchan : Int) : Res PObs :=
+  (makePretend p seq nchan).bind fun q =>
+    .ok { seq := q.seq, len := length q, fr := frames q, data := q.data }
+
+def observe (p : Packet) (consumed : Nat) (reads : List Int) (pseq : Nat) (pn : Int) : Obs :=
+  let c := clearData p
+  let pa : Option (Res PObs) := match channelInfo p with
+    | .ok (n, _) => some (pretendObs p ((pseq + 1) % 4294967296) n)
+    | .pan _ => none
+  { consumed := consumed, v := p.version, src := p.src, seq := p.seq, len := length p,
+    sh := p.shape, ts := tsCounter p, ext := isExtTrig p, ci := channelInfo p, fr := frames p,
+    data := p.data, rd := reads.map (readValue p), pp := pretendObs p pseq pn,
+    pa := pa,
+    cl := { len := length c, fr := frames c, ci := channelInfo c, dkind := c.data.kind, dlen := c.data.len } }
+
+/-! ### The oracle: the property statement, evaluated on an observation
+
+`accClauses` lists the requirements of "every accessor is safe and the sizes are mutually consistent"
+for a successfully decoded packet, given the declared lengths `(hl, pl)` of the input and the accessor
+arguments.  `accOK` is their conjunction. -/
+
+def prod (xs : List Int) : Int := xs.foldl (· * ·) 1
+
+def pretendOK (o : Obs) (seq : Nat) (nchan : Int) (q : Res PObs) : Bool :=
+  match q with
+  | .pan _ => false
+  | .ok q =>
+    q.seq == seq && q.len == o.len && q.fr == o.fr && q.data.kind == o.data.kind &&
+    q.data.len == o.data.len &&
+    (!o.data.typed ||
+      (List.range o.data.len).all fun i => q.data.vals[i]? == o.data.vals[i % nchan.natAbs]?)
+
+def accClauses (hp : Nat × Nat) (reads : List Int) (pseq : Nat) (pn : Int) (o : Obs) : List (String × Bool) :=
+  let hl := hp.1
+  let pl := hp.2
+  let f : Int := match o.fr with | .ok f => f | .pan _ => 0
+  let n : Int := match o.ci with | .ok (n, _) => n | .pan _ => 1
+  [ ("length", o.len == (hl : Int) + pl),
+    ("consumed", o.consumed ≤ hl + pl && hl + o.data.len * o.data.wsize == o.consumed),
+    ("frames-panic", o.fr.isOk),
+    ("frames-negative", 0 ≤ f),
+    ("chaninfo-panic", o.ci.isOk),
+    ("chaninfo-range", match o.ci with
+        | .ok (n, off) => 1 ≤ n && 0 ≤ off && off < 4294967296 &&
+            (match o.sh with | some s => n == prod s && s.all (· > 0) | none => n == 1)
+        | .pan _ => true),
+    ("sizes", f * n ≤ o.data.len && o.data.len * o.data.wsize ≤ pl),
+    ("read-panic", o.rd.all Res.isOk && o.rd.length == reads.length),
+    ("read-value", (reads.zip o.rd).all fun (i, r) => match r with
+        | .ok v => if 0 ≤ i ∧ i < f then (!o.data.typed || o.data.vals[i.toNat]? == some v) else v == 0
+        | .pan _ => true),
+    ("pretend", pn == 0 || pretendOK o pseq pn o.pp),
+    ("pretend-nchan", match o.pa, o.ci with
+        | some q, .ok (n, _) => n == 0 || pretendOK o ((pseq + 1) % 4294967296) n q
+        | none, .ok _ => false
+        | _, .pan _ => true),
+    ("timestamp", match o.ts with | some t => t < 18446744073709551616 | none => true),
+    ("clear", o.cl.fr == .ok 0 && o.cl.dlen == 0 && o.cl.dkind == 0 &&
+        (match o.cl.ci with | .ok (n, _) => 1 ≤ n | .pan _ => false)) ]
+
+def accOK (hp : Nat × Nat) (reads : List Int) (pseq : Nat) (pn : Int) (o : Obs) : Bool :=
+  (accClauses hp reads pseq pn o).all (·.2)
+
+/-- the payload samples of a packet as the decoder can reproduce them -/
+def samples (d : Data) : List Int := d.vals
+
+/-- Round trip: what decoding the encoding of the constructed packet `p` must reproduce. -/
+def rtClauses (p : Packet) (nbytes : Nat) (o : Obs) : List (String × Bool) :=
+  [ ("version", o.v == p.version),
+    ("source", o.src == p.src),
+    ("seqnum", o.seq == p.seq),
+    ("offset", match o.ci with | .ok (_, off) => off == p.offset | .pan _ => p.shape.isNone),
+    ("shape", o.sh == p.shape.map (·.filter (· > 0))),
+    ("payload", samples o.data == samples p.data && (p.data.len == 0 || o.data.kind == p.data.kind)),
+    ("timestamp", o.ts == tsCounter p),
+    ("whole", o.consumed == nbytes) ]
+
+def rtOK (p : Packet) (nbytes : Nat) (o : Obs) : Bool := (rtClauses p nbytes o).all (·.2)
+
+/-- first failing clause -/
+def firstFail : List (String × Bool) → Option String
+  | [] => none
+  | (s, b) :: r => if b then firstFail r else some s
+
+/-! ### Line protocol -/
+
+inductive DecOut where
+  | err (e : String) (consumed : Nat)
+  | ok (o : Obs)
+deriving DecidableEq, Repr
+
+inductive Out where
+  | crash (cls : String)
+  | hang
+  | dec (d : DecOut)
+  | ctorPanic (idx : Int) (cls : String)
+  | ctorErr (idx : Nat)
+  | bytes (bs : List Nat) (d : DecOut)
+deriving Repr
+
+inductive Op where
+  | setTs (t : Nat) (rate : Nat)
+  | resetTs
+  | clear
+  | newData (width : Nat) (dims : List Int) (vals : List Int)
+deriving Repr
+
+inductive Inp where
+  | dec (bs : List Nat)
+  | script (v src seq : Nat) (off : Int) (ops : List Op)
+deriving Repr
+
+def panOfString : String → Option Pan
+  | "nil-deref" => some .nilDeref
+  | "div-zero" => some .divZero
+  | "index-range" => some .indexRange
+  | "explicit" => some .explicit
+  | _ => none
+
+def Pan.str : Pan → String
+  | .nilDeref => "nil-deref" | .divZero => "div-zero" | .indexRange => "index-range" | .explicit => "explicit"
+
+namespace Parse
+open P
+
+/-- `P:<class>` or a value parsed by `p` -/
+def res {α} (p : P α) : P (Res α) := do
+  match (← peek) with
+  | some t =>
+    if t.startsWith "P:" then do
+      let _ ← tok
+      match panOfString (t.drop 2).toString with
+      | some c => pure (.pan c)
+      | none => fail s!"unknown panic class {t}"
+    else do
+      let a ← p
+      pure (.ok a)
+  | none => fail "unexpected end"
+
+def data : P Data := do
+  let k ← nat
+  let xs ← list int
+  match k with
+  | 0 => pure .none
+  | 16 => pure (.i16 xs)
+  | 32 => pure (.i32 xs)
+  | 64 => pure (.i64 xs)
+  | 8 => pure (.raw (xs.map Int.toNat))
+  | _ => fail s!"bad data kind {k}"
+
+def pobs : P PObs := do
+  kw "seq"; let seq ← nat
+  kw "len"; let len ← int
+  kw "fr"; let fr ← res int
+  kw "data"; let d ← data
+  pure { seq, len, fr, data := d }
+
+def pair : P (Int × Int) := do
+  let a ← int
+  let b ← int
+  pure (a, b)
+
+def obs (consumed : Nat) : P Obs := do
+  kw "v"; let v ← nat
+  kw "src"; let src ← nat
+  kw "seq"; let seq ← nat
+  kw "len"; let len ← int
+  kw "sh"
+  let sh ← do
+    match (← peek) with
+    | some "-1" => do let _ ← tok; pure none
+    | _ => do let l ← list int; pure (some l)
+  kw "ts"
+  let ts ← do
+    match (← peek) with
+    | some "-1" => do let _ ← tok; pure none
+    | _ => do let t ← nat; pure (some t)
+  kw "ext"; let ext ← bool
+  kw "ci"; let ci ← res pair
+  kw "fr"; let fr ← res int
+  kw "data"; let d ← data
+  kw "rd"; let rd ← list (res int)
+  kw "pp"; let pp ← res pobs
+  kw "pa"
+  let pa ← do
+    match (← peek) with
+    | some "-" => do let _ ← tok; pure none
+    | _ => do let q ← res pobs; pure (some q)
+  kw "cl"
+  kw "len"; let clen ← int
+  kw "fr"; let cfr ← res int
+  kw "ci"; let cci ← res pair
+  kw "data"; let dk ← nat; let dl ← nat
+  pure { consumed, v, src, seq, len, sh, ts, ext, ci, fr, data := d, rd, pp, pa,
+         cl := { len := clen, fr := cfr, ci := cci, dkind := dk, dlen := dl } }
+
+def decOut : P DecOut := do
+  let t ← tok
+  match t with
+  | "Q" => do
+    let k ← tok
+    let c ← nat
+    pure (.err k c)
+  | "K" => do
+    let c ← nat
+    let o ← obs c
+    pure (.ok o)
+  | _ => fail s!"bad decode output {t}"
+
+def op : P Op := do
+  let t ← tok
+  match t with
+  | "T" => do let a ← nat; let b ← nat; pure (.setTs a b)
+  | "U" => pure .resetTs
+  | "C" => pure .clear
+  | "W" => do
+    let w ← nat
+    let dims ← list int
+    let vals ← list int
+    pure (.newData w dims vals)
+  | _ => fail s!"bad op {t}"
+
+structure Line where
+  inp : Inp
+  reads : List Int
+  pseq : Nat
+  pn : Int
+  out : Out
+
+def line : P Line := do
+  let t ← tok
+  let inp ← match t with
+    | "D" => do let bs ← bytes; pure (Inp.dec bs)
+    | "E" => do
+      kw "N"
+      let v ← nat; let src ← nat; let seq ← nat; let off ← int
+      kw "ops"
+      let ops ← list op
+      pure (Inp.script v src seq off ops)
+    | _ => fail s!"bad case kind {t}"
+  kw "R"; let reads ← list int
+  kw "PS"; let pseq ← nat
+  kw "PN"; let pn ← int
+  kw "OUT"
+  let t ← tok
+  let out ← match t with
+    | "PANIC" => do let c ← tok; pure (Out.crash c)
+    | "HANG" => pure Out.hang
+    | "X" => do
+      let i ← int
+      let c ← tok
+      pure (Out.ctorPanic i c)
+    | "Z" => do let i ← nat; pure (Out.ctorErr i)
+    | "B" => do
+      let bs ← bytes
+      let d ← decOut
+      pure (Out.bytes bs d)
+    | _ => do
+      -- a decode output: put the token back
+      let d ← (fun ts => decOut (t :: ts))
+      pure (Out.dec d)
+  pure { inp, reads, pseq, pn, out }
+
+end Parse
+
+def Err.str : Err → String
+  | .eof => "eof" | .short => "short" | .bad => "bad"
+
+/-- the model's decode output for a byte string -/
+def modelDec (bs : List Nat) (reads : List Int) (pseq : Nat) (pn : Int) : DecOut :=
+  match decodeC bs with
+  | (.error e, c) => .err e.str c
+  | (.ok p, c) => .ok (observe p c reads pseq pn)
+
+def describeDiff (m i : DecOut) : String :=
+  match m, i with
+  | .err e c, .err e' c' => s!"decode: model error {e} consumed {c}, implementation error {e'} consumed {c'}"
+  | .err e _, .ok _ => s!"decode: model error {e}, implementation accepted the packet"
+  | .ok _, .err e _ => s!"decode: model accepted the packet, implementation error {e}"
+  | .ok a, .ok b =>
+    if a.consumed != b.consumed then s!"consumed {a.consumed} vs {b.consumed}"
+    else if a.v != b.v || a.src != b.src || a.seq != b.seq then "header fields"
+    else if a.len != b.len then "Length()"
+    else if a.sh != b.sh then "shape"
+    else if a.ts != b.ts then "timestamp counter"
+    else if a.ext != b.ext then "IsExternalTrigger()"
+    else if a.ci != b.ci then "ChannelInfo()"
+    else if a.fr != b.fr then "Frames()"
+    else if a.data != b.data then "payload data"
+    else if a.rd != b.rd then "ReadValue()"
+    else if a.pp != b.pp then "MakePretendPacket(given nchan)"
+    else if a.pa != b.pa then "MakePretendPacket(ChannelInfo nchan)"
+    else if a.cl != b.cl then "after ClearData()"
+    else "?"
+
+/-- oracle + tags for a decode output of the implementation on input `bs` -/
+def judgeDec (bs : List Nat) (reads : List Int) (pseq : Nat) (pn : Int) (i : DecOut) :
+    Except String (List String) :=
+  match i with
+  | .err e c =>
+    let hp := declared bs
+    if bs.length ≥ 4 ∧ c > max 16 (hp.1 + hp.2) then
+      .error s!"C15:consumed-more-than-declared error path consumed {c} of declared {hp.1 + hp.2}"
+    else if c > bs.length then .error s!"C15:consumed-more-than-input consumed {c} of {bs.length}"
+    else
+      let validHdr := match bs with
+        | _ :: hl :: _ :: _ :: m0 :: m1 :: m2 :: m3 :: _ => hl ≥ 16 && be32 m0 m1 m2 m3 == magic
+        | _ => false
+      .ok (["err-" ++ e] ++ (if e == "bad" && validHdr then ["rej"] else []))
+  | .ok o =>
+    match firstFail (accClauses (declared bs) reads pseq pn o) with
+    | some c => .error s!"C15:accessor-{c} a successfully decoded packet violates clause '{c}'"
+    | none =>
+      .ok (["acc", s!"data{o.data.kind}"] ++
+        (if o.ts.isSome then ["ts"] else []) ++ (if o.ext then ["ext"] else []) ++
+        (if o.sh.isSome then ["shape"] else ["noshape"]) ++
+        (match o.fr with | .ok f => if f > 0 then ["frames"] else [] | _ => []))
+
+def buildData (w : Nat) (vals : List Int) : Data :=
+  if w = 32 then .i32 vals else if w = 64 then .i64 vals else .i16 vals
+
+/-- run a constructor script on the model.  `unit` = the (num, den) words the implementation's
+`Bytes()` derived from the float rate (opaque to the model). -/
+def runOps (unit : Nat × Nat) : Packet → List Op → Nat → Except (Nat × NDErr) Packet
+  | p, [], _ => .ok p
+  | p, o :: os, i =>
+    match o with
+    | .setTs t _ => runOps unit (setTimestamp p { t := t, num := unit.1, den := unit.2 }) os (i + 1)
+    | .resetTs => runOps unit (resetTimestamp p) os (i + 1)
+    | .clear => runOps unit (clearData p) os (i + 1)
+    | .newData w dims vals =>
+      match newData p (buildData w vals) dims with
+      | .ok p' => runOps unit p' os (i + 1)
+      | .error e => .error (i, e)
+
+def runLine (ts : List String) : Verdict :=
+  match P.run Parse.line ts with
+  | .error e => .bad e
+  | .ok ln =>
+    match ln.out with
+    | .crash c => .viol s!"C15:panic-{c} the real code crashed outside any accessor"
+    | .hang => .viol "C15:hang the real code did not return"
+    | _ =>
+    match ln.inp, ln.out with
+    | .dec bs, .dec i =>
+      (match judgeDec bs ln.reads ln.pseq ln.pn i with
+      | .error v => .viol v
+      | .ok tags =>
+        let m := modelDec bs ln.reads ln.pseq ln.pn
+        if m == i then .ok tags else .diff (describeDiff m i))
+    | .script v src seq off ops, out =>
+      -- the unit words of the timestamp TLV, read from the implementation's bytes
+      let unit : Nat × Nat := match out with
+        | .bytes bs _ => (be16 (bs.getD 28 0) (bs.getD 29 0), be16 (bs.getD 30 0) (bs.getD 31 0))
+        | _ => (0, 0)
+      let mp := runOps unit (newPacket v src seq off) ops 0
+      (match mp, out with
+      | .error (i, .pan c), .ctorPanic j c' =>
+        if (i : Int) == j && c' == "P:" ++ c.str then .viol s!"C15:ctor-panic-{c.str} a public constructor panicked (op {i})"
+        else .diff s!"constructor panic: model op {i} {c.str}, implementation op {j} {c'}"
+      | _, .ctorPanic j c' => .viol s!"C15:ctor-panic a public constructor panicked (op {j} {c'}) and the model does not"
+      | .error (i, .tooLong), .ctorErr j =>
+        if i == j then .ok ["newdata-err"] else .diff s!"NewData error at op {j}, model at op {i}"
+      | .error (i, _), _ => .diff s!"model: NewData fails at op {i}; implementation does not"
+      | .ok _, .ctorErr j => .diff s!"implementation: NewData error at op {j}; model accepts"
+      | .ok p, .bytes bs d =>
+        (match encode p with
+        | .pan c => .diff s!"model Bytes() panics {c.str}"
+        | .ok mbs =>
+          -- oracle on the implementation's output
+          let jd := judgeDec bs ln.reads ln.pseq ln.pn d
+          let wf := match p.shape with | some s => s.any (· > 0) | none => true
+          let rt : Option String := match d with
+            | .ok o => (firstFail (rtClauses p bs.length o)).map fun c =>
+                s!"C15:roundtrip-{c} decode(encode(p)) does not reproduce '{c}'"
+            | .err e _ => if wf then some s!"C15:roundtrip-undecodable decode(encode(p)) fails with {e}" else none
+          match jd, rt with
+          | .error v, _ => .viol v
+          | _, some v => .viol v
+          | .ok tags, none =>
+            if mbs != bs then .diff s!"Bytes(): first difference at byte {(firstDiff mbs bs 0).getD 0}"
+            else
+              let m := modelDec bs ln.reads ln.pseq ln.pn
+              if m == d then .ok (tags ++ (if wf then ["rt"] else ["rt-noshape"]) ++
+                  (if p.ts.isSome then ["rt-ts"] else []) ++ [s!"rt-data{p.data.kind}"])
+              else .diff (describeDiff m d))
+      | _, _ => .bad "output form does not fit a constructor script")
+    | _, _ => .bad "output form does not fit the input kind"
 
 end DastardV.C15
